@@ -18,18 +18,28 @@ struct Obj : RefCountedObject
 {
   unsigned stamp = STAMP;
   int id;
-  explicit Obj(int i) : id(i) {}
-  ~Obj() override
-  {
-    stamp = 0xDEAD;
-    g_destroyed[id & 63]++;
-  }
+  // objects own handles to other objects (list / tree nodes): destroying one releases its successor.  Held through a
+  // pointer because IntrusivePtr<Obj> cannot be instantiated while Obj is incomplete (its static_assert on is_base_of).
+  std::unique_ptr<IntrusivePtr<Obj>> nextp;
+  explicit Obj(int i);
+  ~Obj() override;
+  IntrusivePtr<Obj> &next();
 };
 struct Derived : Obj
 {
   int extra = 7;
   explicit Derived(int i) : Obj(i) {}
 };
+Obj::Obj(int i) : id(i), nextp(new IntrusivePtr<Obj>()) {}
+Obj::~Obj()
+{
+  stamp = 0xDEAD;
+  g_destroyed[id & 63]++;
+}
+IntrusivePtr<Obj> &Obj::next()
+{
+  return *nextp;
+}
 using BP = Ref<Obj>;  // the backward-compatible alias is the same template
 using DP = IntrusivePtr<Derived>;
 
@@ -50,6 +60,10 @@ enum
   H_COMPARE,
   H_DEREF,
   O_HANDOVER,  // the usual idiom: create, hand to a handle, creator releases its own reference
+  O_LINK,      // obj->next() = other object / handle / null   (a handle that lives inside an object)
+  H_POP_RAW,   // h = h->next().ptr   (walking / popping a chain: the handle's old object may die in this very assignment ...
+  H_POP_COPY,  // h = h->next        ... and with it the handle `next` the right-hand side refers to)
+  H_POP_MOVE,  // h = std::move(h->next())
   NKINDS
 };
 
@@ -73,23 +87,32 @@ static void history_case(const std::vector<Op> &ops, pbt::Ctx &ctx)
   bool exists[6] = {};
   int nextId = 0;
   int expectedDestroyed[64] = {};
-  bool overNonEmpty = false, handleCausedDestroy = false;
+  bool overNonEmpty = false, handleCausedDestroy = false, popKilledOld = false;
+  int link[3] = {-1, -1, -1};  // model: object slot that obj[o]->next points at (only to a HIGHER slot: no cycles)
 
   auto handles = [&](int o) {
     long long n = 0;
     for (int h = 0; h < 6; ++h)
       if (exists[h] && target[h] == o)
         ++n;
+    for (int i = 0; i < 3; ++i)
+      if (obj[i].alive && link[i] == o)
+        ++n;
     return n;
   };
-  auto settle = [&](bool byHandleOp) {  // objects whose model count reached 0 must be destroyed exactly now
-    for (int o = 0; o < 3; ++o)
-      if (obj[o].alive && obj[o].creator + handles(o) == 0) {
-        obj[o].alive = false;
-        expectedDestroyed[obj[o].id & 63]++;
-        if (byHandleOp)
-          handleCausedDestroy = true;
-      }
+  auto settle = [&](bool byHandleOp) {  // objects whose model count reached 0 must be destroyed exactly now (cascading through next)
+    for (bool again = true; again;) {
+      again = false;
+      for (int o = 0; o < 3; ++o)
+        if (obj[o].alive && obj[o].creator + handles(o) == 0) {
+          obj[o].alive = false;
+          link[o] = -1;
+          expectedDestroyed[obj[o].id & 63]++;
+          if (byHandleOp)
+            handleCausedDestroy = true;
+          again = true;
+        }
+    }
   };
   auto rawOf = [&](int h) -> Obj * {
     if (!exists[h])
@@ -130,6 +153,8 @@ static void history_case(const std::vector<Op> &ops, pbt::Ctx &ctx)
       o = pickObj(o, false);
     else if (kind == O_INC || kind == O_DEC || kind == H_FROM_RAW || kind == H_ASSIGN_RAW)
       o = pickObj(o, true);
+    if (kind == H_POP_RAW || kind == H_POP_COPY || kind == H_POP_MOVE)
+      h = pickHandle(h % 4, true, -1);
     if (kind == H_COPY || kind == H_MOVE)
       g = pickHandle(g, h < 4, h);
     if (kind == H_ASSIGN_COPY || kind == H_ASSIGN_MOVE || kind == H_COMPARE) {
@@ -330,6 +355,50 @@ static void history_case(const std::vector<Op> &ops, pbt::Ctx &ctx)
       PBT_ASSERT(!(lt && gt) && (same ? (!lt && !gt) : (lt || gt)));
       break;
     }
+    case O_LINK: {
+      // obj[o]->next() = obj[o2] for o < o2 (slot order keeps the graph acyclic), or null
+      int o1 = (int)(op.a % 2), o2 = o1 + 1 + (int)(op.b % (2 - o1));
+      if (!obj[o1].alive)
+        break;
+      bool toNull = !obj[o2].alive || op.c % 5 == 0;
+      int hsrc = -1;
+      for (int hh = 0; hh < 4; ++hh)
+        if (exists[hh] && target[hh] == o2)
+          hsrc = hh;
+      if (toNull)
+        obj[o1].raw->next() = nullptr;
+      else if (hsrc >= 0 && op.c % 2)
+        obj[o1].raw->next() = std::as_const(*hb[hsrc]);
+      else
+        obj[o1].raw->next() = obj[o2].raw;
+      link[o1] = toNull ? -1 : o2;
+      ctx.label("object-owns-handle");
+      break;
+    }
+    case H_POP_RAW:
+    case H_POP_COPY:
+    case H_POP_MOVE: {
+      if (!exists[h] || h >= 4 || target[h] < 0)
+        break;
+      int oOld = target[h], oNew = link[oOld];
+      bool oldDies = obj[oOld].creator + handles(oOld) == 1;  // this handle is the last reference to the old object
+      if (kind == H_POP_RAW)
+        *hb[h] = (*hb[h])->next().ptr;
+      else if (kind == H_POP_COPY)
+        *hb[h] = std::as_const((*hb[h])->next());
+      else {
+        *hb[h] = std::move((*hb[h])->next());
+        if (!oldDies)
+          PBT_ASSERT_MSG(obj[oOld].raw->next().ptr == nullptr, "a moved-from handle must be empty");
+        link[oOld] = -1;
+      }
+      target[h] = oNew;
+      if (oldDies && oNew >= 0) {
+        popKilledOld = true;
+        ctx.label("pop: old head dies while its successor is being assigned");
+      }
+      break;
+    }
     case H_DEREF: {
       if (!exists[h])
         break;
@@ -350,6 +419,7 @@ static void history_case(const std::vector<Op> &ops, pbt::Ctx &ctx)
         PBT_ASSERT_MSG(obj[i].raw->stamp == STAMP, "object " << obj[i].id << " was destroyed while references remain (op kind " << kind << ")");
         long long want = obj[i].creator + handles(i);
         PBT_ASSERT_MSG(obj[i].raw->useCount() == want, "useCount()=" << obj[i].raw->useCount() << " but creator refs + live handles = " << want << " (op kind " << kind << ")");
+        PBT_ASSERT_MSG(obj[i].raw->next().ptr == (link[i] >= 0 ? obj[link[i]].raw : nullptr), "object " << obj[i].id << "'s own handle points at the wrong object (op kind " << kind << ")");
       }
     for (int i = 0; i < nextId && i < 64; ++i)
       PBT_ASSERT_MSG(g_destroyed[i] == expectedDestroyed[i], "object " << i << " destroyed " << g_destroyed[i] << " times, model " << expectedDestroyed[i] << " (op kind " << kind << ")");
@@ -373,7 +443,7 @@ static void history_case(const std::vector<Op> &ops, pbt::Ctx &ctx)
     ctx.label("assign-over-nonempty");
   if (handleCausedDestroy)
     ctx.label("handle-op-destroys");
-  ctx.nt(overNonEmpty && handleCausedDestroy);
+  ctx.nt((overNonEmpty && handleCausedDestroy) || popKilledOld);
 }
 
 // ---------------------------------------------------------------- threads
@@ -465,11 +535,77 @@ static void thread_case(const ThreadCase &c, pbt::Ctx &ctx)
   ctx.label("threads=" + std::to_string(nthreads));
 }
 
+// Several threads acquire a reference at the same moment THROUGH ONE shared const handle (a Ref captured by reference in a
+// parallel_for body, a scene object handed to workers): the count goes 1 -> 1+K whatever the interleaving.  Each thread then
+// owns its copy.  Rounds are separated by spin barriers; the concurrent phase itself is unsynchronised.
+struct SharedSrc
+{
+  int threads = 2, rounds = 100, mode = 0;
+  auto tie() { return std::tie(threads, rounds, mode); }
+};
+static void shared_source_case(const SharedSrc &c, pbt::Ctx &ctx)
+{
+  for (auto &d : g_destroyed)
+    d = 0;
+  const int K = 2 + ((c.threads % 7) + 7) % 7, R = 1 + ((c.rounds % 400) + 400) % 400;
+  Obj *raw = new Obj(0);
+  BP holder(raw);
+  raw->refDec();  // the usual hand-over: the shared handle is now the ONLY reference
+  const BP &shared = holder;
+  std::atomic<int> arrived{0}, copied{0}, release{0};
+  std::atomic<long long> bad{0};
+  long long firstBad = -1, seen = 0;
+  std::vector<std::thread> th;
+  for (int t = 0; t < K; ++t)
+    th.emplace_back([&, t] {
+      for (int r = 0; r < R; ++r) {
+        arrived++;
+        while (arrived.load(std::memory_order_acquire) < (r + 1) * K) {
+        }
+        {
+          BP mineH;
+          if ((c.mode + t) % 3 == 0) {
+            shared.ptr->refInc();  // explicit acquisition through the raw pointer of the shared handle
+            copied++;
+            while (copied.load(std::memory_order_acquire) < (r + 1) * K) {
+            }
+            if (t == 0 && shared.ptr->useCount() != 1 + K)
+              bad++, firstBad = firstBad < 0 ? r : firstBad, seen = shared.ptr->useCount();
+            release++;
+            while (release.load(std::memory_order_acquire) < (r + 1) * K) {
+            }
+            shared.ptr->refDec();
+          } else {
+            BP mine(shared);  // copy construction from the shared const handle
+            copied++;
+            while (copied.load(std::memory_order_acquire) < (r + 1) * K) {
+            }
+            if (t == 0 && mine->useCount() != 1 + K)
+              bad++, firstBad = firstBad < 0 ? r : firstBad, seen = mine->useCount();
+            release++;
+            while (release.load(std::memory_order_acquire) < (r + 1) * K) {
+            }
+          }
+        }
+      }
+    });
+  for (auto &x : th)
+    x.join();
+  PBT_ASSERT_MSG(bad == 0, "round " << firstBad << ": " << K << " threads each acquired a reference through one shared handle that held the only reference, but useCount() was " << seen
+                                    << " instead of " << 1 + K << " (" << bad << " rounds affected)");
+  PBT_ASSERT_MSG(raw->stamp == STAMP && g_destroyed[0] == 0, "the object was destroyed while the shared handle still references it");
+  PBT_ASSERT_MSG(raw->useCount() == 1, "after all threads dropped their references useCount() is " << raw->useCount() << ", expected 1");
+  holder = nullptr;
+  PBT_ASSERT(g_destroyed[0] == 1);
+  ctx.nt(true);
+  ctx.label("shared-source threads=" + std::to_string(K));
+}
+
 static void register_properties()
 {
   using namespace rc;
   auto ops = pbt::vec(pbt::genOpWeighted({{3, O_CREATE}, {1, O_INC}, {3, O_DEC}, {2, H_DESTROY}, {1, H_DEFAULT}, {4, H_FROM_RAW}, {3, H_COPY}, {3, H_MOVE},
-                                             {2, H_CONVERT}, {4, H_ASSIGN_COPY}, {3, H_ASSIGN_MOVE}, {3, H_ASSIGN_RAW}, {2, H_COMPARE}, {1, H_DEREF}, {4, O_HANDOVER}},
+                                             {2, H_CONVERT}, {4, H_ASSIGN_COPY}, {3, H_ASSIGN_MOVE}, {3, H_ASSIGN_RAW}, {2, H_COMPARE}, {1, H_DEREF}, {4, O_HANDOVER}, {4, O_LINK}, {2, H_POP_RAW}, {2, H_POP_COPY}, {2, H_POP_MOVE}},
                           5, 11, 11),
       50);
   pbt::property<std::vector<Op>>("handle_history", 6000, ops, history_case);
@@ -478,6 +614,9 @@ static void register_properties()
   pbt::property<ThreadCase>("threads", 300,
       gen::build<ThreadCase>(gen::set(&ThreadCase::nobjects, pbt::range<int>(0, 2)), gen::set(&ThreadCase::programs, progs), gen::set(&ThreadCase::creatorDropAfter, pbt::range<int>(0, 49)), gen::set(&ThreadCase::reps, pbt::range<int>(0, 39))),
       thread_case);
+  pbt::property<SharedSrc>("shared_source_rounds", 150,
+      gen::build<SharedSrc>(gen::set(&SharedSrc::threads, pbt::range<int>(0, 6)), gen::set(&SharedSrc::rounds, pbt::range<int>(20, 399)), gen::set(&SharedSrc::mode, pbt::range<int>(0, 2))),
+      shared_source_case);
 }
 #ifndef C08_BIN
 #define C08_BIN "C08_refcount"
